@@ -32,9 +32,13 @@ structure C07_Contracts (tr : Trace) (endT : Int) : Prop where
   k2 : K2 Cfg.paper tr endT = true
   k3 : K3 Cfg.paper tr endT = true
   k4 : K4 Cfg.paper tr endT = true
-  k5 : K5 tr endT = true
+  k5 : K5 Cfg.paper tr endT = true
   k6 : K6 Cfg.paper tr = true
   k7 : K7 Cfg.paper tr endT = true
+  /-- refresh (C10): a held PTR is re-queried at 75 % and 85 % of its TTL -/
+  k3b : K3b Cfg.paper tr endT = true
+  /-- freshness: on a browsing host the PTR of a registered instance of its type is unexpired at the end of the window -/
+  kf : KF Cfg.paper tr endT = true
 
 /-- The property, parametrised by what is known about a run: for every observation window `[0, endT]` of a run described by
 `runs`, ending at least `settle` after the last API call, every browser on a host that was not closed reports exactly the
@@ -51,22 +55,33 @@ def C07_convergence (runs : Trace → Int → Prop) : Prop :=
 Convergence for every trace that satisfies the contracts and the link assumption K7.  Case analysis per (service, browser):
 withdrawn ⇒ one of the 2nd/3rd goodbyes arrives after every PTR with TTL > 0; registered ⇒ the browser's host sees the 2nd
 or 3rd announcement, or came up later and then the browser's 3rd and 4th start-up query opportunities each elicit a
-delivered answer (directly, or through the heard question that suppressed them) — one loss kills at most one. -/
+delivered answer (directly, or through the heard question that suppressed them) — one loss kills at most one.
+
+**Stability over long horizons.**  `held` is "the last PTR processed was positive"; what a browser reports follows the cache
+*including expiry* (`K5`: `heldFresh → live → heldGrace`).  That the PTR of a registered instance never expires on a browsing
+host is the hypothesis `kf` (`KF`, monitored on every run).  It is the consequence of the refresh contract `k3b` (a held PTR is
+re-queried — not listed as a known answer, being stale — at 75 % and again at 85 % of its TTL) together with K4 and K7 by the very
+argument of `query_chain` (two exchanges ≥ 112 s apart, one loss): **that derivation `K3b ∧ K4 ∧ K7 → KF` is not proved here**;
+`k3b` is monitored but unused by the proof.  For windows shorter than the 1125 s TTL floor after the last PTR `KF` holds trivially. -/
 theorem C07_convergence_partial : C07_convergence C07_Contracts := by
   intro tr endT hc hsettle tb b hb hopen s
   have hwf := wf_of hc.wf
   unfold C07_settle at hsettle
-  rw [live_eq_held hwf.le_end hc.k5 hb hopen s]
   by_cases hty : s.ty = b.ty
   · have hty' : (s.ty == b.ty) = true := by simpa using hty
-    rw [hty', Bool.and_true, Bool.and_true]
+    rw [hty', Bool.and_true]
     cases hreg : registered Cfg.paper tr s with
     | true =>
       obtain ⟨β, t1, hA⟩ := announced_of_registered hwf hc.k1 hc.k2 hc.k7 hsettle hreg
-      exact held_of_announced hwf hc.k3 hc.k4 hc.k7 hsettle hA hb hopen hty
-    | false => exact not_held_of_unregistered hwf hc.k2 hc.k6 hc.k7 hsettle hopen hreg
+      have hh := held_of_announced hwf hc.k3 hc.k4 hc.k7 hsettle hA hb hopen hty
+      have hu := kf_of hc.kf hb hopen (held_mem_dlvSvcs hh) hty hreg
+      exact live_of_heldFresh hwf.le_end hc.k5 hb hopen (by unfold heldFresh; rw [hh, hu]; rfl) hty
+    | false =>
+      exact not_live_of_not_held hwf.le_end hc.k5 hb hopen
+        (Or.inl (not_held_of_unregistered hwf hc.k2 hc.k6 hc.k7 hsettle hopen hreg))
   · have hty' : (s.ty == b.ty) = false := by simpa using hty
-    rw [hty', Bool.and_false, Bool.and_false]
+    rw [hty', Bool.and_false]
+    exact not_live_of_not_held hwf.le_end hc.k5 hb hopen (Or.inr hty)
 
 /-- **Removed direction, for every host** (no browser needed; uses only K2, K6, K7): after the settling time no host that
 stays up still holds a PTR of a service that is not registered — no resurrection (D5/D6 are violations of K6). -/
@@ -102,13 +117,14 @@ theorem C07_single_loss (tr : Trace) (endT : Int) (h7 : K7 Cfg.paper tr endT = t
 /-- the same statements hold with the parameters computed from the source (what the driver evaluates) -/
 theorem C07_convergence_gen (tr : Trace) (endT : Int)
     (hc : WF Cfg.gen tr endT = true ∧ K1 Cfg.gen tr endT = true ∧ K2 Cfg.gen tr endT = true ∧ K3 Cfg.gen tr endT = true
-      ∧ K4 Cfg.gen tr endT = true ∧ K5 tr endT = true ∧ K6 Cfg.gen tr = true ∧ K7 Cfg.gen tr endT = true)
+      ∧ K4 Cfg.gen tr endT = true ∧ K5 Cfg.gen tr endT = true ∧ K6 Cfg.gen tr = true ∧ K7 Cfg.gen tr endT = true
+      ∧ K3b Cfg.gen tr endT = true ∧ KF Cfg.gen tr endT = true)
     (hsettle : lastChange tr + C07_settle ≤ endT) (tb : Int) (b : Br) (hb : (tb, b) ∈ browses tr)
     (hopen : neverClosed tr b.host = true) (s : Svc) :
     convergedFor Cfg.gen tr b s = true := by
   rw [C07_constants] at hc ⊢
-  obtain ⟨h0, h1, h2, h3, h4, h5, h6, h7⟩ := hc
-  have := C07_convergence_partial tr endT ⟨h0, h1, h2, h3, h4, h5, h6, h7⟩ hsettle tb b hb hopen s
+  obtain ⟨h0, h1, h2, h3, h4, h5, h6, h7, h8, h9⟩ := hc
+  have := C07_convergence_partial tr endT ⟨h0, h1, h2, h3, h4, h5, h6, h7, h8, h9⟩ hsettle tb b hb hopen s
   unfold convergedFor
   rw [this]
   simp
@@ -143,7 +159,7 @@ def tr : Trace :=
 
 /-- every contract holds on it (the third announcement of `u` is the one lost delivery) -/
 theorem contracts : C07_Contracts tr 31000 :=
-  ⟨by decide, by decide, by decide, by decide, by decide, by decide, by decide, by decide⟩
+  ⟨by decide, by decide, by decide, by decide, by decide, by decide, by decide, by decide, by decide, by decide⟩
 
 example : K6full tr = true ∧ K5added tr = true := by decide
 example : (missing Cfg.paper tr 31000).length = 1 := by decide
@@ -174,7 +190,7 @@ def tr : Trace :=
    ⟨16050, .send 1 7 none (q [s] false)⟩, ⟨16050, .dlv 7 1 0 true (q [s] false)⟩, ⟨16050, .dlv 7 1 1 true (q [s] false)⟩]
 
 theorem contracts : C07_Contracts tr 20000 :=
-  ⟨by decide, by decide, by decide, by decide, by decide, by decide, by decide, by decide⟩
+  ⟨by decide, by decide, by decide, by decide, by decide, by decide, by decide, by decide, by decide, by decide⟩
 
 example : lastChange tr + C07_settle ≤ 20000 := by decide
 example : upBefore tr b.host (350 + 225) = false := by decide   -- the browser's host missed every announcement
